@@ -20,7 +20,9 @@ THEOREMS = ["Output.url_resolves_iff", "Output.url_resolves_iff_visible", "Outpu
             "Output.inhierarchy_counterexample_collision_old"]
 RULE = ("hand-written scenario projects for every situation the quantifier names (inheritance, inherited docstrings, "
         "re-exports, duplicates 'C 0', hidden and private objects, nested classes, several roots) plus random projects "
-        "of harness.gen.project.Gen with planted L{...} cross-references, each under a random list of --privacy rules "
+        "of harness.gen.project.Gen with planted L{...} cross-references (in the description and in @see/@note/@author/@since fields; "
+        "families base method with such fields / override without docstring), 8 % of the projects in reStructuredText with "
+        "internal references in the summary sentences, each under a random list of --privacy rules "
         "(exact names and patterns, three levels, any order), a theme of {classic, readthedocs, base}, "
         "--sidebar-expand-depth 1..5, --sidebar-toc-depth, --no-sidebar; the REAL pydoctor.driver.main is run, the output "
         "directory crawled (every href/src, every id / a[name], all-documents.html, lunr indexes, objects.inv) and each "
@@ -39,7 +41,8 @@ ASSUMPTIONS = [
     "the model assumes that no module is called like a summary page (index, moduleIndex, classIndex, nameIndex, undoccedSummary, "
     "all-documents); projects with such roots are generated as oracle-only cases (open finding summary-page-overwritten)",
     "not modelled: compact module list (> 50 submodules), letter anchors of nameIndex.html, docstring tables of contents, "
-    "zope.interface rows, extra_info other than the constructor note, --html-subject (the crawl oracle still sees them)",
+    "zope.interface rows, extra_info other than the constructor note (the crawl oracle still sees them); --html-subject runs "
+    "write a partial output by design and are judged by C12 only",
     "a project with no visible object at all aborts in lunr (ZeroDivisionError) before writing: such runs are counted "
     "(run-crash) and skipped - no output exists (proposed repair: fixes/C01-empty-search-corpus.diff)",
 ]
